@@ -370,6 +370,23 @@ class KruskalFull(Family):
             R = rng.randint(1, 3)
             out.append({"weights": gen.int_values(rng, R, -3, 3), "factors": [gen.matrix(rng, m, R) for m in s]})
         out.append({"weights": [2], "factors": [[[1], [3]]]})
+        # every split point of the two Khatri-Rao groups (data-dependent: argmin over i of prod(shape[:i]) + prod(shape[i:])),
+        # enumerated for orders 2..6 - with extents up to 4 the split is almost always 1 or 2 (seed C01s)
+        import itertools
+        from math import prod
+        seen = {}
+        for N in range(2, 7):
+            for shp in itertools.product((1, 2, 3, 5, 9, 30), repeat=N):
+                if prod(shp) > 800:
+                    continue
+                i_split = min(range(1, N), key=lambda i: (prod(shp[:i]) + prod(shp[i:]), i))
+                seen.setdefault((N, i_split), []).append(list(shp))
+        for (N, i_split), shapes in sorted(seen.items()):
+            picks = [shapes[0], shapes[-1]] + (rng.sample(shapes, min(len(shapes), 2 if tier == "quick" else 8)))
+            for shp in picks:
+                R = rng.randint(1, 3)
+                out.append({"weights": gen.int_values(rng, R, -3, 3), "factors": [gen.matrix(rng, m, R) for m in shp],
+                            "split": i_split})
         return out
 
     def evaluate(self, cases):
@@ -383,7 +400,7 @@ class KruskalFull(Family):
         for c, impl, m in zip(cases, impls, models):
             shape = [len(f) for f in c["factors"]]
             R = len(c["weights"])
-            tags = [f"N{len(shape)}", f"R{R}"]
+            tags = [f"N{len(shape)}", f"R{R}"] + ([f"split{c['split']}"] if "split" in c else [])
             spec = {"shape": shape, "data": [
                 sum(c["weights"][r] * int(np.prod([c["factors"][n][i[n]][r] for n in range(len(shape))])) for r in range(R))
                 for i in gen.all_subs(shape)]}
